@@ -453,5 +453,9 @@ func (s SyscallWithConditions) Assemble(p *Program, action Label) {
 		}
 		p.SetLabel(noMatch)
 	}
+
+	// None of the conditions matched. The argument checks have overwritten the syscall number
+	// in the accumulator, so load it again before the following syscalls are compared against it.
+	p.instructions = append(p.instructions, bpf.LoadAbsolute{Off: syscallNumOffset, Size: sizeOfUint32})
 	p.SetLabel(nextSyscall)
 }
